@@ -377,7 +377,11 @@ func (r *FeedReader) ReadPage(h *Hub, m *Model, limit int) *Violation {
 	if err != nil {
 		return viol("C02", "reader", "error", "GetChanges(%s,%d,%d,%v): %v", r.DS, r.Token, limit, r.Latest, err)
 	}
-	got := canonList(h, c.Entities)
+	return r.Verify(d, canonList(h, c.Entities), c.NextToken, limit)
+}
+
+// Verify checks one page (already fetched with the reader's token) against the model feed.
+func (r *FeedReader) Verify(d *DSModel, got []string, nextToken uint64, limit int) *Violation {
 	kind := "full"
 	if r.Latest {
 		kind = "latestOnly"
@@ -423,10 +427,10 @@ func (r *FeedReader) ReadPage(h *Hub, m *Model, limit int) *Violation {
 		}
 		idx = len(d.Versions)
 	}
-	if c.NextToken < r.Token {
-		return viol("C02", "reader", kind+":token-regressed", "reader on %s: token went from %d to %d", r.DS, r.Token, c.NextToken)
+	if nextToken < r.Token {
+		return viol("C02", "reader", kind+":token-regressed", "reader on %s: token went from %d to %d", r.DS, r.Token, nextToken)
 	}
-	r.Token = c.NextToken
+	r.Token = nextToken
 	r.Idx = idx
 	r.Pages++
 	return nil
